@@ -975,6 +975,43 @@ fn run_durations(cx: &mut Ctx, dtds: &[i128], ymds: &[i64], dtd_pairs: &[(i128, 
       cx.rep.sample(json!({"expression": e, "implementation": obs, "model_and_spec": ans}));
     }
   }
+  // durations of 2^64 days and more: no `PT…S` literal reaches them (a component is at most u64::MAX), a
+  // literal with the greatest day component and a time part does
+  {
+    let day: i128 = 86_400_000_000_000;
+    let huge: Vec<(String, i128)> = vec![
+      ("P18446744073709551615DT24H".to_string(), 18_446_744_073_709_551_616i128 * day),
+      ("P18446744073709551615DT49H30M15S".to_string(), 18_446_744_073_709_551_617i128 * day + 5_415_000_000_000),
+      ("-P18446744073709551615DT36H".to_string(), -(18_446_744_073_709_551_616i128 * day + 43_200_000_000_000)),
+      ("P18446744073709551615DT23H59M59S".to_string(), 18_446_744_073_709_551_615i128 * day + 86_399_000_000_000),
+      ("P18446744073709551615DT18446744073709551615H".to_string(), 18_446_744_073_709_551_615i128 * day + 18_446_744_073_709_551_615i128 * 3_600_000_000_000),
+    ];
+    let reqs: Vec<String> = huge.iter().map(|(_, n)| format!("(c15 dtd {})", n)).collect();
+    let answers = cx.model.ask_batch(&reqs);
+    for (((t, n), req), ans) in huge.iter().zip(reqs.iter()).zip(answers.iter()) {
+      let lit = format!("duration(\"{}\")", t);
+      if feel(&lit) != format!("(dtd {})", n) {
+        cx.rep.disagree(Kind::ImplVsSpec, "construction", "C15 a days and time duration literal does not denote the written length", &lit, &feel(&lit), &format!("(dtd {})", n));
+        continue;
+      }
+      let e = format!("{{a: {}, r: [a.days, a.hours, a.minutes, a.seconds]}}.r", lit);
+      let obs = feel_list(&e);
+      cx.rep.case(req, true);
+      cx.rep.hit("dtd:2^64 days and more");
+      let got = format!("({})", obs.iter().map(|s| num_of(s)).collect::<Vec<_>>().join(" "));
+      if let Some((mo, _)) = parse_pair(ans) {
+        if got != mo.to_string() {
+          cx.rep.disagree(Kind::ImplVsModel, "dur_components_sum", "duration components differ from the model", &e, &got, &mo.to_string());
+        }
+      }
+      let v: Vec<i128> = obs.iter().map(|s| num_of(s).parse::<i128>().unwrap_or(-1)).collect();
+      let ok = v.len() == 4 && v[1] >= 0 && v[1] < 24 && v[2] >= 0 && v[2] < 60 && v[3] >= 0 && v[3] < 60 && v[0] >= 0 && ((v[0] * 24 + v[1]) * 60 + v[2]) * 60 + v[3] == n.abs() / 1_000_000_000;
+      if !ok {
+        let sig = if n.abs() / day > u64::MAX as i128 { "C15 days component of a duration of 2^64 days or more wraps around (get_days as usize)" } else { "C15 days/hours/minutes/seconds do not add up to the duration" };
+        cx.rep.disagree(Kind::ImplVsSpec, "dur_components_sum", sig, &e, &got, &format!("|{}| ns", n));
+      }
+    }
+  }
   let reqs: Vec<String> = ymds.iter().map(|n| format!("(c15 ymd {})", n)).collect();
   let answers = cx.model.ask_batch(&reqs);
   for ((n, req), ans) in ymds.iter().zip(reqs.iter()).zip(answers.iter()) {
@@ -1587,6 +1624,295 @@ fn run_dt_boundary(cx: &mut Ctx, pairs: &[BPair]) {
 }
 
 // ---------------------------------------------------------------------------------------------
+// family 4c `local-props`: every property of a date-time whose LOCAL date is not its UTC date
+//
+// A date and time value has the year, month, day, weekday, hour, minute and second of the date and time that
+// is WRITTEN (its local date and time), whatever its offset or zone; `time offset` is the written offset (for
+// a named zone: the offset the zone has at that local time), `timezone` the written zone name. The cases are
+// written with offsets -14:59:59 … +14:59:59 and named zones so that the local date and the date of the same
+// instant in UTC differ by a day - across the turn of a month or a year too - or lie around a daylight-saving
+// switch; controls have the same date on both lines.
+//   (a) corpus/C15/dt_props.json (python3 datetime + zoneinfo; corpus/C15/dt_props.py): years 2…9999;
+//   (b) generated here, years to ±999999999, judged against the Lean specification (`c15 dtprops`:
+//       written components + Dmn.Cal.weekday of the local date).
+// The calendar built-ins `day of year`, `week of year`, `day of week`, `month of year` are evaluated on the
+// same values: the property does not name them and the code answers null for all four (not implemented) -
+// that is counted, not reported; an answer that is not null must be the calendar's (python / Dmn.Cal).
+
+const LOCAL_PROP_NAMES: [&str; 9] = ["year", "month", "day", "weekday", "hour", "minute", "second", "time offset", "timezone"];
+
+fn render_prop(s: &str) -> String {
+  if s.starts_with("(n ") {
+    s[3..s.len() - 1].to_string()
+  } else if s.starts_with("(dtd ") {
+    let n: i128 = s[5..s.len() - 1].parse().unwrap_or(0);
+    if n % 1_000_000_000 == 0 {
+      format!("{}", n / 1_000_000_000)
+    } else {
+      s.to_string()
+    }
+  } else if s == "null" {
+    "none".to_string()
+  } else {
+    s.to_string()
+  }
+}
+
+struct LocalCase {
+  x: Dt,
+  form: u8,
+  /// offset of a named zone from the zone table (python zoneinfo)
+  table_offset: Option<i64>,
+  /// what python says: (weekday, day of year, ISO week, weekday name, month name)
+  py: Option<(i64, i64, i64, String, String)>,
+  /// how the local date relates to the UTC date: same / day / month / year
+  dates: String,
+  class: String,
+}
+
+fn utc_relation(x: &Dt, off: i64) -> &'static str {
+  let local = days_from_civil(x.y, x.m, x.d) * 86_400 + x.h * 3600 + x.mi * 60 + x.s;
+  let (uy, um, ud) = civil_from_days((local - off).div_euclid(86_400));
+  if uy != x.y {
+    "year"
+  } else if um != x.m {
+    "month"
+  } else if ud != x.d {
+    "day"
+  } else {
+    "same"
+  }
+}
+
+fn local_prop_cases(rng: &mut Rng, thorough: bool, rep: &mut Report) -> Vec<LocalCase> {
+  let mut out: Vec<LocalCase> = vec![];
+  // (a) the python table
+  let path = concat!(env!("CARGO_MANIFEST_DIR"), "/../corpus/C15/dt_props.json");
+  let table: serde_json::Value = std::fs::read_to_string(path).ok().and_then(|t| serde_json::from_str(&t).ok()).unwrap_or(json!({"rows": []}));
+  let rows = table["rows"].as_array().cloned().unwrap_or_default();
+  if rows.is_empty() {
+    rep.notes.push("corpus/C15/dt_props.json not found or empty: family local-props runs without the python table".into());
+  }
+  for (i, r) in rows.iter().enumerate() {
+    let g = |k: &str| r[k].as_i64().unwrap_or(0);
+    let off = g("offset");
+    let z = match r["zone"].as_str() {
+      Some(n) => Zone::Named(n.to_string()),
+      None => fix_zero(Zone::Offset(off)),
+    };
+    let named = matches!(z, Zone::Named(_));
+    let x = Dt { y: g("y"), m: g("m"), d: g("d"), h: g("h"), mi: g("mi"), s: g("s"), ns: 0, z };
+    out.push(LocalCase {
+      x,
+      form: (i % 3) as u8,
+      table_offset: if named { Some(off) } else { None },
+      py: Some((g("weekday"), g("yday"), g("week"), r["weekday_name"].as_str().unwrap_or("").to_string(), r["month_name"].as_str().unwrap_or("").to_string())),
+      dates: r["dates"].as_str().unwrap_or("").to_string(),
+      class: format!("python:{}", r["class"].as_str().unwrap_or("")),
+    });
+  }
+  // (b) generated: any year, offsets with minutes and seconds
+  let n = if thorough { 12_000 } else { 2500 };
+  for k in 0..n {
+    let y = match rng.below(8) {
+      0 => rng.range(-3000, 3000),
+      1 => rng.range(1900, 2100),
+      2 => *rng.pick(&[-262_143i64, 262_142, -1, 0, 1, 999, 1000, 9999, 10_000, -9999, 1582, 1600, 1900, 2000, 2100]),
+      3 => rng.range(-262_143, 262_142),
+      4 => *rng.pick(&[999_999_999i64, -999_999_999, 262_143, -262_144, 300_000, -300_000, 999_999_996]),
+      5 => rng.range(-999_999_999, 999_999_999),
+      _ => rng.range(1, 9999),
+    };
+    // the turn of a year, of a month (the end of February too), or any day
+    let (m, d) = match rng.below(6) {
+      0 => (1, 1),
+      1 => (12, 31),
+      2 => {
+        let m = rng.range(1, 12);
+        (m, 1)
+      }
+      3 => {
+        let m = rng.range(1, 12);
+        (m, dim(y, m))
+      }
+      4 => *rng.pick(&[(2, 28), (3, 1), (2, dim(y, 2))]),
+      _ => {
+        let m = rng.range(1, 12);
+        (m, rng.range(1, dim(y, m)))
+      }
+    };
+    let off = match rng.below(6) {
+      0 => 3600 * rng.range(-14, 14),
+      1 => 60 * rng.range(-899, 899),
+      2 => rng.range(-53_999, 53_999),
+      3 => *rng.pick(&[-53_999i64, 53_999, -50_400, 50_400, -1, 1, -60, 60, 45_900, 20_700, -12_600]),
+      4 => 1800 * rng.range(-29, 29),
+      _ => 900 * rng.range(-59, 59),
+    };
+    let control = k % 6 == 5 || off == 0;
+    // seconds of the local day: within |offset| of midnight on the side where UTC is on another day
+    let sod = if control {
+      rng.range(0, 86_399)
+    } else if off > 0 {
+      let r = rng.range(0, off - 1);
+      *rng.pick(&[0, off - 1, r])
+    } else {
+      let r = rng.range(86_400 + off, 86_399);
+      *rng.pick(&[86_399, 86_400 + off, r])
+    };
+    let z = if control && rng.chance(1, 4) { Zone::Local } else { fix_zero(Zone::Offset(off)) };
+    let ns = if rng.chance(1, 5) { rng.range(1, 999) * 1_000_000 } else { 0 };
+    let x = Dt { y, m, d, h: sod / 3600, mi: sod % 3600 / 60, s: sod % 60, ns, z };
+    let dates = if x.z == Zone::Local { "same".to_string() } else { utc_relation(&x, off).to_string() };
+    out.push(LocalCase { x, form: rng.below(3) as u8, table_offset: None, py: None, dates, class: "generated".into() });
+  }
+  out
+}
+
+fn run_local_props(cx: &mut Ctx, cases: &[LocalCase]) {
+  let mut live: Vec<&LocalCase> = vec![];
+  for c in cases {
+    let e = dt_form_expr(&c.x, c.form);
+    let o = feel(&e);
+    if o == c.x.obs() {
+      live.push(c);
+    } else {
+      cx.rep.hit("skipped:construction-differs");
+      cx.rep.disagree(Kind::ImplVsSpec, "construction", "C15 a date and time literal does not denote the written date, time and offset", &e, &o, &c.x.obs());
+    }
+  }
+  let orc = |c: &LocalCase| c.table_offset.map(|o| o.to_string()).unwrap_or_else(|| "none".to_string());
+  let reqs: Vec<String> = live.iter().map(|c| format!("(c15 dtprops ({}) {})", c.x.fields(), orc(c))).collect();
+  let answers = cx.model.ask_batch(&reqs);
+  let mut builtin_null = 0usize;
+  let mut builtin_value = 0usize;
+  for ((c, req), ans) in live.iter().zip(reqs.iter()).zip(answers.iter()) {
+    let xe = dt_form_expr(&c.x, c.form);
+    let e = format!("{{a: {}, r: [{}]}}.r", xe, LOCAL_PROP_NAMES.iter().map(|p| format!("a.{}", p)).collect::<Vec<_>>().join(", "));
+    let obs: Vec<String> = feel_list(&e).iter().map(|s| render_prop(&norm_panic(s))).collect();
+    cx.rep.case(&format!("local-props {} {}", c.form, req), c.dates != "same");
+    cx.rep.hit(&format!("local-props:{}", c.class));
+    cx.rep.hit(&format!("local-props-utc-date:{}", if c.dates == "same" { "same as the local date" } else { "differs from the local date" }));
+    if c.dates != "same" {
+      cx.rep.hit(&format!("local-props-differs-in:{}", c.dates));
+    }
+    cx.rep.hit(match &c.x.z {
+      Zone::Named(_) => "local-props-zone:named",
+      Zone::Utc => "local-props-zone:utc",
+      Zone::Local => "local-props-zone:local",
+      Zone::Offset(o) if o % 3600 == 0 => "local-props-zone:offset of whole hours",
+      Zone::Offset(o) if o % 60 == 0 => "local-props-zone:offset with minutes",
+      Zone::Offset(_) => "local-props-zone:offset with seconds",
+    });
+    cx.rep.hit(classify_year(c.x.y));
+    let parsed = Sexp::parse(ans);
+    let (mo, sp, cal): (Vec<String>, Vec<String>, Vec<String>) = match parsed.as_ref().and_then(|s| s.as_list()) {
+      Some([m, s, k]) => {
+        let v = |x: &Sexp| x.as_list().map(|l| l.iter().map(|a| a.to_string()).collect::<Vec<_>>()).unwrap_or_default();
+        (v(m), v(s), v(k))
+      }
+      _ => {
+        cx.rep.disagree(Kind::ImplVsModel, "local-props", "driver-error", req, &obs.join(" "), ans);
+        continue;
+      }
+    };
+    if obs.len() != LOCAL_PROP_NAMES.len() || mo.len() != obs.len() || sp.len() != obs.len() || cal.len() != 4 {
+      cx.rep.disagree(Kind::ImplVsSpec, "local-props", "C15 local-props: evaluating the properties of a date and time fails", &e, &obs.join(" "), &sp.join(" "));
+      continue;
+    }
+    // the python table against the Lean specification (both are oracles: they must agree)
+    if let Some((wd, yday, week, _, _)) = &c.py {
+      if sp[3] != wd.to_string() || cal[0] != yday.to_string() || cal[1] != week.to_string() || cal[3] != wd.to_string() {
+        cx.rep.disagree(Kind::ImplVsModel, "local-props", "local-props: the Lean calendar (weekday, day of year, ISO week, Zeller) differs from python datetime", req, &format!("{} {}", sp.join(" "), cal.join(" ")), &format!("weekday {} yday {} week {}", wd, yday, week));
+        continue;
+      }
+    }
+    // mirror model
+    for k in 0..obs.len() {
+      if obs[k] != mo[k] {
+        cx.rep.disagree(Kind::ImplVsModel, "property_access", "date-time property access differs from the model", &format!("({}).{}", xe, LOCAL_PROP_NAMES[k]), &obs[k], &mo[k]);
+      }
+    }
+    // the property: the written local components, the calendar's weekday of the local date
+    for k in 0..obs.len() {
+      if obs[k] != sp[k] {
+        let sig = if k == 7 && matches!(c.x.z, Zone::Named(_)) {
+          "C15 named-zone offset differs from zoneinfo".to_string()
+        } else if k == 3 {
+          "C15 local-props: the weekday of a date and time is not the weekday of its (local) date".to_string()
+        } else {
+          format!("C15 local-props: the property `{}` of a date and time is not that of the written (local) date and time", LOCAL_PROP_NAMES[k])
+        };
+        cx.rep.disagree(Kind::ImplVsSpec, "property_access", &sig, &format!("({}).{}", xe, LOCAL_PROP_NAMES[k]), &obs[k], &sp[k]);
+      }
+    }
+    // the calendar built-ins, positional and named
+    let be = format!("{{a: {}, r: [day of year(a), week of year(a), day of week(a), month of year(a), day of year(date: a), week of year(date: a)]}}.r", xe);
+    let bo: Vec<String> = feel_list(&be).iter().map(|s| norm_panic(s)).collect();
+    if bo.len() == 6 {
+      let names = ["day of year", "week of year", "day of week", "month of year", "day of year (named parameter)", "week of year (named parameter)"];
+      let wd_names = ["Monday", "Tuesday", "Wednesday", "Thursday", "Friday", "Saturday", "Sunday"];
+      let mn_names = ["January", "February", "March", "April", "May", "June", "July", "August", "September", "October", "November", "December"];
+      let wd: usize = sp[3].parse().unwrap_or(1);
+      let want = [
+        format!("(n {})", cal[0]),
+        format!("(n {})", cal[1]),
+        Sexp::str(wd_names[(wd + 6) % 7]).to_string(),
+        Sexp::str(mn_names[((c.x.m - 1).rem_euclid(12)) as usize]).to_string(),
+        format!("(n {})", cal[0]),
+        format!("(n {})", cal[1]),
+      ];
+      for k in 0..6 {
+        if bo[k] == "null" {
+          builtin_null += 1;
+        } else {
+          builtin_value += 1;
+          if bo[k] != want[k] {
+            cx.rep.disagree(Kind::ImplVsSpec, "calendar_builtins", &format!("C15 local-props: the built-in `{}` of a date and time is not the calendar's for its (local) date", names[k]), &be, &bo[k], &want[k]);
+          }
+        }
+      }
+    } else {
+      cx.rep.hit("local-props-builtins:not evaluated (parse error or panic)");
+      if bo.iter().any(|s| s == "panic") {
+        cx.rep.disagree(Kind::ImplVsSpec, "calendar_builtins", "C15 local-props: a calendar built-in panics", &be, &bo.join(" "), "values or null");
+      }
+    }
+    if cx.rep.samples.len() < 14 && c.dates == "year" {
+      cx.rep.sample(json!({"expression": e, "implementation": obs, "specification": sp, "calendar (day of year, ISO week, week year, Zeller)": cal, "local date vs UTC date": c.dates}));
+    }
+  }
+  cx.rep.extra.insert("local_props_cases".into(), json!(live.len()));
+  cx.rep.extra.insert("calendar_builtins".into(), json!({"answers null (not implemented)": builtin_null, "answers a value": builtin_value}));
+  if builtin_value == 0 {
+    cx.rep.hit("local-props-builtins:all null (not implemented; not named by the property)");
+  }
+}
+
+/// Times with offsets: hour, minute, second are the written ones (not those of the same instant in UTC).
+fn run_time_props(cx: &mut Ctx, rng: &mut Rng, n: usize) {
+  for _ in 0..n {
+    let x = random_dt(rng, 2000, 2000);
+    let z = if rng.chance(1, 6) { Zone::Local } else { x.z.clone() };
+    let t = Dt { z, ..x };
+    let text = t.time_text();
+    let e = format!("{{t: {}, r: [t.hour, t.minute, t.second, t.time offset, t.timezone]}}.r", if rng.chance(1, 2) { format!("time(\"{}\")", text) } else { format!("@\"{}\"", text) });
+    let obs: Vec<String> = feel_list(&e).iter().map(|s| render_prop(&norm_panic(s))).collect();
+    cx.rep.case(&format!("time-props {}", text), true);
+    cx.rep.hit("time-props");
+    let off = match &t.z {
+      Zone::Utc => "0".to_string(),
+      Zone::Offset(o) => o.to_string(),
+      _ => "none".to_string(),
+    };
+    let want = vec![t.h.to_string(), t.mi.to_string(), t.s.to_string(), off, "none".to_string()];
+    if obs != want {
+      cx.rep.disagree(Kind::ImplVsSpec, "property_access", "C15 local-props: the properties of a time are not those of the written (local) time", &e, &obs.join(" "), &want.join(" "));
+    }
+  }
+}
+
+// ---------------------------------------------------------------------------------------------
 
 fn random_valid_date(rng: &mut Rng, lo: i64, hi: i64) -> (i64, i64, i64) {
   let y = rng.range(lo, hi);
@@ -1823,6 +2149,14 @@ fn run_inner(cfg: &Cfg) -> Report {
     let bp = boundary_pairs(&mut brng, thorough, &zones);
     cx.rep.extra.insert("boundary_pairs".into(), json!(bp.len()));
     run_dt_boundary(&mut cx, &bp);
+  }
+
+  // ---- every property of date-times whose local date is not their UTC date (own random stream)
+  {
+    let mut prng = Rng::new(cfg.seed ^ 0x10CA_1DA7);
+    let lc = local_prop_cases(&mut prng, thorough, cx.rep);
+    run_local_props(&mut cx, &lc);
+    run_time_props(&mut cx, &mut prng, if thorough { 2000 } else { 400 });
   }
 
   // properties: every table row (zone offset against zoneinfo) and random date-times
